@@ -256,7 +256,7 @@ def run_many(pool, jobs, timeout=2.0, batch=40, no_confirm=None):
         single = pool.map([jobs[i] for i in redo], timeout=timeout, confirm=False)
         for i, r in zip(redo, single):
             res[i] = r
-        # a hang/abort is confirmed alone with the 10x budget — except for programs `no_confirm` accepts
+        # a hang/abort is confirmed alone with the 10x budget \u2014 except for programs `no_confirm` accepts
         # (programs with loops of their own: the caller decides about those by other means)
         need = [i for i in redo if res[i].get("status") in ("timeout", "abort") and not (no_confirm and no_confirm(jobs[i]))]
         if need:
@@ -346,3 +346,82 @@ def builtin_call(rng):
                       "a{b:%s*2px}", "@if %s{a{b:c}}", "@each $i in %s{a{b:$i}}", "@for $i from 1 through %s{}", "a{b:nth(%s, 1)}",
                       "a{#{%s}:c}", "#{%s}{b:c}", "a{b:c !important %s}"])
     return head + ctx % f"{fn}({args})"
+
+
+# --------------------------------------------------------------------------------------------
+# hex escapes at the edges of the scalar-value ranges; loud comments at awkward columns
+# --------------------------------------------------------------------------------------------
+
+EDGE_CODEPOINTS = ["0", "1", "9", "a", "1f", "20", "7f", "80", "ff", "d7ff", "d800", "dbff", "dc00", "dffe", "dfff", "e000", "fffd", "fffe",
+                   "ffff", "10000", "10fffe", "10ffff", "110000", "ffffff"]
+
+
+def edge_escapes():
+    """`\\<hex>` spelled with 1-6 digits (zero padded, upper/lower case), with and without the trailing space"""
+    out = []
+    for h in EDGE_CODEPOINTS:
+        forms = {h, h.upper(), h.rjust(6, "0"), h.rjust(min(6, len(h) + 1), "0")}
+        for f in sorted(forms):
+            if len(f) <= 6:
+                out += ["\\" + f, "\\" + f + " "]
+    return out
+
+
+def escape_jobs():
+    """(source, syntax): every edge escape in the positions that consume an escaped character or an escape:
+    quoted strings (value, @charset, @import/@use url), identifiers, variable names, keywords (`t\\6f`), url( )."""
+    out = []
+    for e in edge_escapes():
+        x = e if e.endswith(" ") else e + " "          # keep what follows from being read as more hex digits
+        for syn in ("scss", "css", "sass"):
+            nl = "\n" if syn == "sass" else ";"
+            body = (lambda d: "a\n  " + d + "\n") if syn == "sass" else (lambda d: "a{" + d + "}")
+            out += [(body(f'b: "{e}"'), syn), (body(f"b: '{x}q'"), syn), (body(f"b: c{x}d"), syn), (body(f"b: {x}d"), syn),
+                    (body(f"b{x}: c"), syn), (body(f"b: url({x})"), syn), (f'@charset "{e}"{nl}', syn), (f"@q{x} r{nl}", syn),
+                    (f'@import "{e}.css"{nl}', syn), (body(f"b: {x}(1)"), syn), (f".c{x}" + ("\n  b: c\n" if syn == "sass" else "{b:c}"), syn),
+                    (f'[d="{e}"]' + ("\n  b: c\n" if syn == "sass" else "{b:c}"), syn)]
+            if syn != "css":
+                out += [(f"${x}: 1{nl}", syn), (f'@use "{e}"{nl}', syn), (f"@for $i from 1 t{e}o 2" + ("\n  a\n    b: $i\n" if syn == "sass" else "{a{b:$i}}"), syn),
+                        (f'@debug "{e}"{nl}', syn), (body(f'b: "#{{1}}{e}"'), syn), (body(f"b: unquote('{x}')"), syn)]
+    seen, uniq = set(), []
+    for j in out:
+        if j not in seen:
+            seen.add(j)
+            uniq.append(j)
+    return uniq
+
+
+LEADS = ["", " ", "  ", "   ", "    ", "\t", "\u3000", "\u00a0", "\u2003", "\u3000\u3000", " \u3000", "\u00a0 ", "\u00e9", "\u3000x", "\u2028",
+         "\u1680", "\u00a0\u00a0\u00a0", "\u205f", "\ufeff", "\u0085"]
+
+
+def comment_layout_job(rng):
+    """(source, options): a multi-line loud comment at a varying column (top level, nested one or two levels,
+    after other text on the line) whose continuation lines start with ASCII or multi-byte white space / characters."""
+    syn = rng.choice(["scss", "scss", "css", "sass"])
+    bang = rng.choice(["", "", "!"])
+    lines = ["L0"] + [rng.choice(LEADS) * rng.choice([1, 1, 2, 3]) + f"L{i}" for i in range(1, rng.randint(2, 4))]
+    nl = rng.choice(["\n", "\n", "\r\n", "\r", "\f"])
+    comment = "/*" + bang + " " + nl.join(lines) + " */"
+    col = rng.choice(["", " ", "  ", "   ", "    ", "\t", "     ", "       "])
+    if syn == "sass":
+        # continuation lines of an indented-syntax comment must be indented deeper than the comment
+        depth = rng.choice([0, 1, 2])
+        ind = "  " * depth
+        body = [ind + "/*" + bang + " L0"] + [ind + "  " + rng.choice(LEADS) + f"L{i}" for i in range(1, rng.randint(2, 4))]
+        head = "".join("  " * d + "a\n" for d in range(depth))
+        src = head + "\n".join(body) + "\n" + ind + "b: c\n" if depth else "\n".join(body) + "\na\n  b: c\n"
+    else:
+        shape = rng.randrange(5)
+        if shape == 0:
+            src = col + comment + nl + "a{b:c}"
+        elif shape == 1:
+            src = "a{" + nl + col + comment + nl + "b:c}"
+        elif shape == 2:
+            src = "a{b:c;" + col + comment + "}"
+        elif shape == 3:
+            src = "@media screen{a{" + nl + col + comment + nl + "b:c}}"
+        else:
+            src = "a{d{" + col + comment + " b:c}}" if syn == "scss" else "@supports (x:y){a{" + col + comment + " b:c}}"
+    opts = {"syntax": syn, "style": rng.choice([None, "compressed"]), "quiet": True}
+    return src, opts
